@@ -13,7 +13,8 @@
   null / empty / false).  A site is `Safe` when, in every environment in which all its guards hold,
 
     index      idx < #container            (`c[i]`, `*it`, `c.front()`, `c.back()`, `c.pop_back()`)
-    position   idx ≤ #container            (`std::next(c.begin(), k)`, `c.begin() + k`: one past the end is allowed)
+    position   idx ≤ #container            (`std::next(c.begin(), k)`, `c.begin() + k`: one past the end is allowed;
+                                            `s[i]` on a std::string: `s[s.size()]` is the terminating NUL)
     nonzero    0 < idx                     (`p->m`, `*p`, `*opt`, `std::string(p)`)
     never      False                       (a call that closes a cycle of the call graph – recursion – must be
                                             unreachable: its guards contradict each other)
